@@ -866,6 +866,12 @@ pub fn mark_yield(name: &str, vals: &[(&str, i64)]) {
     yield_now();
 }
 
+/// a process-wide fresh number (identifies an instrumented object in marker events)
+pub fn fresh_id() -> usize {
+    static NEXT: std::sync::atomic::AtomicUsize = std::sync::atomic::AtomicUsize::new(1);
+    NEXT.fetch_add(1, std::sync::atomic::Ordering::Relaxed)
+}
+
 #[macro_export]
 macro_rules! mark {
     ($name:expr $(, $k:ident = $v:expr)* $(,)?) => {
